@@ -431,6 +431,8 @@ def c03(rng, count):
         delim = rng.choice([b"-", b",", b" "])
         z = rng.random() < 0.2
         eol = b"\0" if z else b"\n"
+        if not z and rng.random() < 0.04:
+            delim = b"\n"          # the delimiter is the terminator itself: every record has one field
         # structured forward bounds
         cur = 0
         bs = []
@@ -594,8 +596,27 @@ def c07(rng, count):
     return out
 
 
+def c08_table():
+    """serde_json's escape table, exhaustively: every ASCII character and selected others as a field of its own
+    and next to plain text, in -f and -c mode (NUL under -z only, LF without -z only)"""
+    out = []
+    cps = list(range(0, 128)) + [0x80, 0xFF, 0x7FF, 0x800, 0x2028, 0x2029, 0xD7FF, 0xE000, 0xFFFD, 0xFFFF, 0x10000, 0x1F601, 0x10FFFF]
+    for cp in cps:
+        ch = chr(cp)
+        for z in (False, True):
+            eol = "\0" if z else "\n"
+            if ch == eol or ch == ",":
+                continue
+            zf = ["-z"] if z else []
+            out.append(Case(["--json", "-d", ",", "-f", "1,2"] + zf, ("a" + ch + "b," + ch + eol).encode("utf-8", "surrogatepass")))
+            if z and cp not in (0, 10):
+                continue
+            out.append(Case(["--json", "-c", "1:3"] + zf, ("x" + ch + "y" + eol).encode("utf-8", "surrogatepass")))
+    return out
+
+
 def c08(rng, count):
-    return jsonf(rng, (2 * count) // 3) + [c for c in c07(rng, count) if b"--json" in c.argv][: count // 3]
+    return c08_table() + jsonf(rng, (2 * count) // 3) + [c for c in c07(rng, count) if b"--json" in c.argv][: count // 3]
 
 
 def c11(rng, count):
